@@ -49,6 +49,12 @@ func init() {
 						mode = "twice"
 					case 4:
 						mode = "foreign-proto-then-own"
+					case 5:
+						if r.Chance(1, 3) {
+							mode = "flood-then-own"
+						} else if r.Chance(1, 2) {
+							mode = "flood-only"
+						}
 					}
 					if wrap {
 						mode = "ontime"
@@ -89,6 +95,18 @@ func init() {
 							late = append(late, lateFrame{i + 1 + r.Intn(6), own})
 						case "late-wrap":
 							late = append(late, lateFrame{i + 65535 + (i % 2), own}) // 65535 (must be skipped) or 65536 (same id again)
+						case "flood-then-own", "flood-only":
+							// many well-formed frames with stale transaction ids / foreign protocol ids
+							for k := 0; k < 5+r.Intn(20); k++ {
+								if r.Chance(1, 4) {
+									stream = append(stream, mbapFrame(w.txn, uint16(1+r.Intn(65535)), w.unit, w.fc, taggedReply(w, 0xbeef))...)
+								} else {
+									stream = append(stream, mbapFrame(w.txn-uint16(1+r.Intn(200)), 0, w.unit, w.fc, taggedReply(w, 0xbeef))...)
+								}
+							}
+							if mode == "flood-then-own" {
+								stream = append(stream, own...)
+							}
 						case "foreign-proto-then-own":
 							stream = append(stream, mbapFrame(w.txn, uint16(1+r.Intn(65535)), w.unit, w.fc, taggedReply(w, 0xdead))...)
 							stream = append(stream, own...)
@@ -112,7 +130,7 @@ func init() {
 							res.Add(Finding{Kind: "property", Check: "history", Line: line, Impl: impl, Expect: want + "…",
 								Note: fmt.Sprintf("request #%d returned a reply that answers another request", i)})
 						}
-					} else if mode == "ontime" || mode == "twice" || mode == "foreign-proto-then-own" {
+					} else if mode == "ontime" || mode == "twice" || mode == "foreign-proto-then-own" || mode == "flood-then-own" {
 						res.Add(Finding{Kind: "property", Check: "history", Line: line, Impl: impl, Expect: "ok",
 							Note: "own reply was delivered (behind foreign frames) but the call did not return it"})
 					} else if rv != "err:ErrRequestTimedOut" {
